@@ -146,11 +146,17 @@ def run_vmslot(chk, pid, n):
             continue
         wf = tok[1][3:]
         ran += sum(1 for x in tok[2:] if x.startswith('R'))
+        wf, also = (wf.split('+', 1) + [None])[:2]
         if wf != 'ok' and any(wf.startswith(x) for x in mine):
             cause = classify_vmslot(i)
             key = ('%s:%s' % (pid.lower(), cause)) if cause else ('%s:vmslot:%s:%s' % (pid.lower(), wf, ' '.join(c.split()[2:])[:160]))
             chk.violation(key, 'after accepted rule actions the segment violates the property: %s%s' % (wf, (' [' + cause + ']') if cause else ''),
                           dict(case=c, got=i[:2000]))
+        if also and any(also.startswith(x) for x in mine):
+            # beside the first problem (which may be a recorded one): a slot whose parent is in the stream is not exactly once in that parent's
+            # chain -- a slot outside the stream does not account for that
+            chk.violation('%s:vmslot:%s:%s' % (pid.lower(), also, ' '.join(c.split()[2:])[:160]),
+                          'after accepted rule actions a slot whose parent is in the segment does not occur exactly once in that parent\'s attachment chain (beside: %s)' % wf, dict(case=c, got=i[:2000]))
         mres = (m or '').split()
         if len(mres) < 3 or mres[2] != 'ok':
             ndis += 1
